@@ -71,16 +71,16 @@ func NewSqlite(path string, cfg *SqliteConfig) (*Sqlite, error) {
 	// The WAL journal mode provides a [Write-Ahead Log](https://www.sqlite.org/wal.html) provides
 	// more concurrency as readers do not block writers and a writer does not block readers,
 	// contrary to the default mode where readers block writers and vice versa.
-	connParams.Add("_pragma", "journal_mode(WAL)")
+	connParams.Add("_journal_mode", "WAL")
 	// Setting a bigger busy_timeout helps to prevent SQLITE_BUSY errors. The timeout is in
 	// milliseconds.
-	connParams.Add("_pragma", "busy_timeout(1000)")
+	connParams.Add("_busy_timeout", "1000")
 	// When synchronous is NORMAL, the SQLite database engine will still sync at the most critical
 	// moments, but less often than in FULL mode. WAL mode is safe from corruption with
 	// synchronous=NORMAL.
-	connParams.Add("_pragma", "synchronous(NORMAL)")
+	connParams.Add("_synchronous", "NORMAL")
 	// Enforce foreign key constraints.
-	connParams.Add("_pragma", "foreign_keys(1)")
+	connParams.Add("_foreign_keys", "1")
 	// Use shared cache for in-memory databases to allow multiple connections.
 	if c.InMemory {
 		registerMemoryDB(noFile)
